@@ -23,6 +23,7 @@ func checkC24(r *Run) {
 		desc  string
 		key   string
 		val   string
+		in    ssa.Instruction
 	}
 	var sites []site
 	for _, fn := range r.P.ModFns {
@@ -54,7 +55,7 @@ func checkC24(r *Run) {
 						continue
 					}
 					owner, fs := r.P.attribute(fn, b)
-					sites = append(sites, site{FnName(owner), kind, name, fs, r.P.Pos(in.Pos()), t, key, val})
+					sites = append(sites, site{FnName(owner), kind, name, fs, r.P.Pos(in.Pos()), t, key, val, in})
 				}
 			}
 		}
@@ -75,7 +76,34 @@ func checkC24(r *Run) {
 		case s.fn == "daemon.Connections.remove" && s.kind == "delete" && s.m == "listenAddrs":
 			r.Check("C24-R1", "remove cleans the listen-address index only for a non-empty listen address", s.pos, has(s, `daemon.connection.ListenAddr(`+conn+`) != ""`), "")
 		case s.fn == "daemon.Connections.remove" && s.kind == "delete" && s.m == "ipCounts":
-			r.Check("C24-R1", "remove deletes the per-IP count key exactly when it returned to zero", s.pos, has(s, "$0.ipCounts[util/iputil.SplitAddr($1)#0] == 0", "*ipCounts[*] == 0"), "")
+			// two equivalent forms: decrement, then delete when the stored count is 0; or delete when the count
+			// is 1 and decrement otherwise
+			cnt := "$0.ipCounts[util/iputil.SplitAddr($1)#0]"
+			var dec *site
+			nDec := 0
+			for i := range sites {
+				if t := &sites[i]; t.fn == s.fn && t.kind == "insert" && t.m == "ipCounts" {
+					dec = t
+					nDec++
+				}
+			}
+			okForm := false
+			detail := "no decrement of the per-IP count in remove"
+			if nDec == 1 {
+				decOK := dec.val == "("+cnt+" - 1)" && has(*dec, "0 < "+cnt)
+				after := dec.in.Block() == s.in.Block() || dec.in.Block().Dominates(s.in.Block())
+				switch {
+				case !decOK:
+					detail = "the count is not decremented by one under count > 0: stores " + dec.val
+				case after:
+					okForm = has(s, cnt+" == 0")
+					detail = "decrement precedes the delete, which therefore needs the guard count == 0"
+				default:
+					okForm = has(s, cnt+" == 1") && has(s, "0 < "+cnt) && has(*dec, cnt+" != 1")
+					detail = "the delete replaces the decrement, which therefore needs the guards count == 1 (delete) and count != 1 (decrement)"
+				}
+			}
+			r.Check("C24-R1", "remove decrements the per-IP count and deletes the key exactly when it returned to zero", s.pos, okForm, detail)
 		case s.fn == "daemon.Connections.introduced" && s.kind == "insert" && s.m == "listenAddrs":
 			r.Check("C24-R1", "introduced indexes the listen address only for incoming connections", s.pos, has(s, "!"+conn+".ConnectionDetails.Outgoing"), "")
 			r.Check("C24-R1", "introduced indexes the listen address only when it is non-empty (symmetric with remove)", s.pos, has(s, `daemon.connection.ListenAddr(`+conn+`) != ""`), "an empty listen address would never be removed")
